@@ -29,13 +29,13 @@ CLAIMED["C02"] = {
 
 CLAIMED["C07"] = {
     "technique": "Lean 4 proof that comparison ufuncs after strict conversion decide the order of the physical quantities (positivity of unit ratios); Boolean-table lemma; correspondence incl. exact ties",
-    "text": "C07_cmp (all six operators, all shapes/dtypes/unit pairs: result = element-wise comparison of phys values, dimensionless bool), C07_incompatible_raises, C07_logic / C07_logic_table are proved for the model; C07_cmp_current re-proves against the extracted dtype test that boolean results carry no unit. Tie: generated comparisons with values that differ only after conversion (exact ties in the exact lane), logical ops and comparison/logic chains, diffed against the real Array.",
+    "text": "C07_cmp (all six operators, all shapes/dtypes/unit pairs: result = element-wise comparison of phys values, dimensionless bool), C07_incompatible_raises, C07_logic / C07_logic_table, C07_plan_agrees (the numpy kernel and conversion factor _binary_op settles on, used to evaluate nan/inf operands with numpy itself) are proved for the model; C07_cmp_current re-proves against the extracted dtype test that boolean results carry no unit. Tie: generated comparisons with values that differ only after conversion (exact ties in the exact lane), logical ops and comparison/logic chains, diffed against the real Array.",
     "note": "trusted: Lean kernel + standard axioms; numpy comparison ufuncs modelled; tolerant lane generates no near ties (>= 1% apart after conversion)",
     "design_ref": "5 C07",
 }
 CLAIMED["C08"] = {
     "technique": "Lean 4 proofs about Array.to/Vector.to (phys preserved, round trip and chain exact over Q, raises iff dimensions differ) + kernel-checked table theorem on the constants regenerated from defaults.py; correspondence incl. pint's reported values",
-    "text": "C08_to_preserves_phys / C08_to_raises_iff / C08_to_roundtrip / C08_to_chain / C08_vector_componentwise hold for all values, shapes, dtypes and consistent unit catalogues; C08_constants_true (decide +kernel) re-proves on every run that every constant extracted from config/defaults.py has its accepted value, unit and aliases (Reference/Constants.lean). Tie: conversions of all kinds on the real classes vs the model, and the values pint actually reports for every defined name.",
+    "text": "C08_to_preserves_phys / C08_to_raises_iff / C08_to_roundtrip / C08_to_chain / C08_vector_componentwise hold for all values, shapes, dtypes and consistent unit catalogues; C08_spelling_mul_comm / _mul_assoc / _div_as_pow / _pow_mul (Lemmas/Sym.lean: normal-form algebra of the symbolic unit container) say that rewriting a unit expression does not change the unit it denotes, and random spellings of random expression trees are parsed by osyris.units in one process and compared with UExpr.eval; C08_constants_true (decide +kernel) re-proves on every run that every constant extracted from config/defaults.py has its accepted value, unit and aliases (Reference/Constants.lean). Tie: conversions of all kinds on the real classes vs the model, and the values pint actually reports for every defined name.",
     "note": "trusted: Lean kernel + standard axioms; reference constants (IAU 2015, CODATA 2018) and the 1e-3 tolerance; pint's parser; fresh HOME so that the repo's defaults.py is what osyris loads",
     "design_ref": "5 C08",
 }
@@ -55,15 +55,15 @@ CLAIMED["C10"] = {
 
 CLAIMED["C17"] = {
     "technique": "Lean 4 heap-style proofs on an explicit store of buffers, views and object ids (read-after-write, frame, alias visibility, fresh copies); op-history correspondence observing identity and memory sharing on the real objects",
-    "text": "On the pure store layer: C17_iop (the same object reads the values of x op y after x op= y), C17_iop_frame (Arrays on other buffers and object identities unchanged), write_alias (every other object viewing the same buffer positions sees the update), alloc_fresh + C17_copy_independent (copies are independent in both directions) are proved for every store, view and operand. Tie: histories of in-place ops / copies / deep copies / slices / group insertions on shared objects run on the real classes and on the machine; `is` and np.shares_memory are observed after each step.",
+    "text": "On the pure store layer: C17_iop (the same object reads the values of x op y after x op= y), C17_iop_frame (Arrays on other buffers and object identities unchanged), write_alias and C17_view_sees_write (every other object viewing the same buffer - same view, slice, strided or overlapping view - reads the written value where the views meet and the old value elsewhere), alloc_fresh + C17_copy_independent (copies are independent in both directions) are proved for every store, view and operand. Tie: histories of in-place ops / copies / deep copies / slices / group insertions on shared objects run on the real classes and on the machine; `is` and np.shares_memory are observed after each step.",
     "note": "trusted: Lean kernel + standard axioms; numpy's view/copy semantics and `out=` casting are modelled; the history-level statement is by correspondence (induction over op lists not yet proved); sub-views with dimension-changing in-place ops are outside the claim (as the property states)",
     "design_ref": "5 C17",
 }
 
 CLAIMED["C16"] = {
     "technique": "Lean 4 proof that every extracted group is the source group indexed by one mask computed from its positions (fold soundness, reusing the C06 alignment theorem) + membership lemmas; correspondence on hand-built datasets with rows exactly on the boundary",
-    "text": "C16_extract_sound: each group of the result is the source group of that name indexed by a single boolean mask derived from the group's own or the mesh positions (shapes equal), with at least one row kept — so all members stay row-aligned by C06_getIndex_aligned; C16_box_component / C16_sphere_component give the closed / open membership tests. Tie: datasets with mesh/part/sink groups, 2-D/3-D positions, mixed length units, rows exactly on sphere and box boundaries, compared with the real extract_sphere / extract_box (result, untouched input, no shared memory).",
-    "note": "trusted: Lean kernel + standard axioms; r < R modelled as r^2 < R^2; comparison and conversion semantics from C07/C08; the phys-level statement of the masks is by correspondence; 1-component sphere is a known finding",
+    "text": "C16_extract_sound: each group of the result is the source group of that name indexed by a single boolean mask derived from the group's own or the mesh positions (shapes equal), with at least one row kept — so all members stay row-aligned by C06_getIndex_aligned; C16_box_row_phys and C16_sphere_row_phys state the tests in physical terms: with positions, origin and size / radius each in its own length unit, row i is kept exactly when |physical offset| <= physical size / 2 (box, per component) resp. the physical distance is below the positive physical radius (sphere, >= 2 components). Tie: datasets with mesh/part/sink groups, 2-D/3-D positions, mixed length units, rows exactly on sphere and box boundaries, compared with the real extract_sphere / extract_box (result, untouched input, no shared memory).",
+    "note": "trusted: Lean kernel + standard axioms; r < R modelled as r^2 < R^2; comparison and conversion semantics from C07/C08; the composition of the per-row theorems with the extraction fold is by correspondence; 1-component sphere is a known finding",
     "design_ref": "5 C16",
 }
 
@@ -119,6 +119,25 @@ CLAIMED["C18"] = {
     "text": "perp_orth, cross_orth, u_cross_v, C18_normalize_unit, C18_basis_normal / C18_basis_nu / C18_basis_given / C18_roll / C18_vector, C18_letters (decide +kernel over all accepted strings), C18_top (n parallel to L), C18_side (L in the image plane) are proved in exact arithmetic. Tie: all accepted strings in any case, normal Vectors axis-aligned / z=0 / x+y=0 / random, scaled by 10^+-k up to 300 and with one tiny component, any unit, VectorBasis objects plain and rolled, top/side on particle clouds; norms and dots to 1e-12, orientation and handedness checked on the real results.",
     "note": "partial: overflow/underflow of doubles is outside the theorems (exact arithmetic) and is covered by the correspondence only",
     "design_ref": "5 C18",
+}
+
+CLAIMED["C03"] = {
+    "technique": "Lean 4 proofs over an ordered field that the plane / radial pre-selection keeps every cell that contains a sample point, that the pixel footprint of a cell covers every pixel whose sample it contains, and that the painted image is schedule-independent up to face pixels (permutation + interleaving model); selection formulas detected from plot/map.py; correspondence on hand-built AMR meshes incl. face/edge/corner pixels and thread sweeps",
+    "text": "plane_dist / plane_dist_2d / radial_sound (pre-selection soundness), footprint_lo / footprint_hi / footprint_axis / pixHits_of_contains_flat, image_getD / paint_perm / C03_map_events / C03_map / C03_map_pixel (every paint order: a pixel holds the value of a loaded cell containing its sample point, NaN iff none), C03_map_sched / C03_sched (every chunking and interleaving of the prange kernel, faces included) are proved; radial_unsound_witness proves the negation for the pre-selection as it was coded (repaired, fixed entry). Tie: model as coded + Spec on 2-D/3-D AMR Datagroups of 1-4 levels with holes, origins on faces/corners/outside, letters/triples/Vector normals/top/side, dx in six units or omitted, resolutions 1..32 int/dict, scalar and vector layers, exact lane on face-aligned pixels; 1/2/16 numba threads.",
+    "note": "partial: theorems are for 3-D data with dx given; 2-D data and the dx-omitted window are covered by the correspondence only; the real numba scheduler is sampled (C03_map_sched is about the interleaving model); np.linspace and the division by dx are modelled (exact lane makes them exact)",
+    "design_ref": "5 C03",
+}
+CLAIMED["C11"] = {
+    "technique": "Lean 4 proofs: slab pre-selection soundness, voxel/column theorems (each depth sample is the value of the cell containing it or missing), reductions incl. nan-variants and NaN propagation, unit scaling of sum/nansum by the depth step, round-half-even depth count is nearest to the pixel size; correspondence on thick maps over reductions x dz x resolutions",
+    "text": "slab_sound / nearPlane_thick_sound, pixHits_of_contains_thick, mem_select_thick, C11_voxel / C11_column / C11_sched, reduce_nan_propagates / reduce_nansum_all_missing / reduce_nan_all_missing / reduce_nan_eq / reduce_sum_some, C11_units / C11_units_const (a constant column integrates to v*depth for every nz), roundHalfEven_nearest / roundHalfEven_tie_even / depth_count_nearest are proved; slab_unsound_witness proves the negation for the slab test as it was coded (repaired). Tie: as C03 plus dz/s in {1/8..8, domain} x eight reductions x resolution int / dict with and without z, depth/pixel ratios on the ties of round().",
+    "note": "partial: as C03 (3-D data with dx given in the theorems; scheduler sampled); float rounding excluded by the exact lane and bounded by 1e-9 with near ties skipped in the tolerant lane",
+    "design_ref": "5 C11",
+}
+CLAIMED["C19"] = {
+    "technique": "Lean 4 proofs on a heap model of argument objects: frame theorems (no entry point writes to a caller object), call = function of its arguments over whole call histories, precedence theorems for parse_layer / Layer.update with the option table regenerated from core/layer.py + plot/parser.py each run; correspondence with deep before/after snapshots of every argument over call sequences",
+    "text": "C19_precedence / C19_update_precedence / C19_kwargs_precedence / C19_update_kwargs_precedence / C19_precedence_tables / C19_precedence_current (layer-level options win, call-level fill the unset ones, for every option of the extracted table), generated_fields_complete (decide on the regenerated table), C19_parse_pure, C19_frame_map / _histogram2d / _histogram1d / _scatter / _plot / C19_frame_current, C19_call_spec, C19_idempotent_data, C19_history / C19_history_current are proved; C19_map_mutates_resolution_witness and C19_map_ignores_layer_operation_witness prove the negations for map() as it was (both repaired). Tie: all 4^7 set/unset patterns of the option fields (thorough), extra keyword options, and sequences of 2-4 calls of the five entry points sharing Layers, option dicts, one resolution dict, limits and the Datagroup, each with a deep snapshot before/after and a fresh-world rerun.",
+    "note": "trusted: Lean kernel + standard axioms; matplotlib objects are observed only through mode/norm class/params (vmin/vmax of norms are rewritten by matplotlib); single-threaded, sample points off cell faces",
+    "design_ref": "5 C19",
 }
 
 NOT_YET = {
